@@ -138,6 +138,27 @@ MUTATORS = ('append', 'extend', 'insert', 'remove', 'pop', 'clear', 'add', 'disc
             'setdefault', 'popitem')
 
 
+def _body_mutates_iterable(s):
+    """the loop body applies a mutating method (or del / subscript assignment) to the very expression the loop header
+    iterates (`for c in self.jobs: ... self.jobs.remove(c)`): the only case in which the obligation
+    safe:list-changed-while-iterated is generated - a write to a list that merely could alias the iterated one (or the
+    frame of a modular callee) is the imprecision of a contract, not a change made by the loop"""
+    if not isinstance(s.iter, (ast.Name, ast.Attribute, ast.Subscript)):
+        return False
+    target = ast.dump(s.iter)
+    for st in s.body:
+        for x in ast.walk(st):
+            if (isinstance(x, ast.Call) and isinstance(x.func, ast.Attribute) and x.func.attr in MUTATORS
+                    and ast.dump(x.func.value) == target):
+                return True
+            if isinstance(x, (ast.Delete, ast.Assign, ast.AugAssign)):
+                tg = x.targets if isinstance(x, (ast.Delete, ast.Assign)) else [x.target]
+                for t in tg:
+                    if isinstance(t, ast.Subscript) and ast.dump(t.value).replace('Store()', 'Load()').replace('Del()', 'Load()') == target:
+                        return True
+    return False
+
+
 def check_literal_mutation(eng, s, fr):
     """a literal list / dict local (kept as a python-level constant) that the loop body mutates would keep its entry
     value on the loop-exit path: refuse instead of being silently wrong"""
@@ -306,6 +327,7 @@ def symbolic_for(eng, s, fr, it):
         # per-iteration clause loop<K>_iter: proved at the end of one arbitrary iteration started under the invariant;
         # iter_old = locals/heap at the start of that iteration, effect vocabulary relative to that iteration
         iter_old = OldNS(dict(fr.vars), eng.heap.snapshot())
+        iter_mark = _log_mark(eng)
         n_eff = len(eng.effects)
         eff_mark = n_eff
         try:
@@ -324,13 +346,21 @@ def symbolic_for(eng, s, fr, it):
         # each element" clause would be about another loop.  Proved here, quantifier-free: at the end of an iteration
         # that continues, the iterated heap list is the one the iteration started with (a copy made by the header -
         # list(x), sorted(x), x + y - is a temporary nobody else references and is not concerned)
-        if is_list and isinstance(it, ListV) and it.heap is None:
+        if is_list and isinstance(it, ListV) and it.heap is None and _body_mutates_iterable(s):
             same = []
             for nme in sorted(eng.heap.sorts):
                 if nme == 'L.len' or nme.startswith('L.data:'):
-                    new_a, old_a = eng.heap.get(nme), iter_old.heap.get(nme, eng.heap.sorts[nme])
-                    if not new_a.eq(old_a):
-                        same.append(new_a[it.ref] == old_a[it.ref])
+                    # only for the writes this iteration made itself (stores of the body and of inlined callees): the
+                    # havoc of a modular callee's frame is the imprecision of a contract, not a change made by the loop
+                    evs = eng.heap.log.get(nme, [])[iter_mark.get(nme, 0):]
+                    ws, seen_w = [], set()
+                    for e in evs:
+                        if e[0] == 'store' and e[1].get_id() not in seen_w:
+                            seen_w.add(e[1].get_id())
+                            ws.append(e[1])
+                    if ws:
+                        new_a, old_a = eng.heap.get(nme), iter_old.heap.get(nme, eng.heap.sorts[nme])
+                        same.append(z3.Implies(z3.Or([w == it.ref for w in ws]), new_a[it.ref] == old_a[it.ref]))
             if same:
                 eng.run.oblige(f'safe:list-changed-while-iterated@{eng.cur_fn}:{s.lineno}', 'safe',
                                z3.And(same) if len(same) > 1 else same[0], s.lineno,
